@@ -160,8 +160,9 @@ class M3UPlaylistsProvider(backend.PlaylistsProvider):
                 translator.dump_items(playlist.tracks, fp)
             if playlist.name and playlist.name != name:
                 orig_path = path
-                path = translator.path_from_name(playlist.name.strip())
-                path = path.with_suffix(orig_path.suffix)
+                path = translator.path_from_name(
+                    playlist.name.strip(), orig_path.suffix
+                )
                 self._abspath(orig_path).rename(self._abspath(path))
             mtime = self._abspath(path).stat().st_mtime
         except OSError as e:
